@@ -9,3 +9,9 @@ from acverif.inline import inlined_body
 def facts(path=None):
     fp = path or subprocess.check_output(['python3', '/verif/tools/facts_path.py']).decode().strip()
     return Facts(fp)
+
+
+def rows(f, path, **kw):
+    from acverif.sym import summarize
+    b = inlined_body(f, f.body(path))
+    return b, summarize(f, b, **kw)
